@@ -25,7 +25,8 @@ _GROWS = "forall(lambda k: implies(k in old(self.emitted), k in self.emitted), t
 _LOG = ["G.emit_n", "G.emit_last", "G.emit_prev", "G.dedents"]
 ASSUME("mako.pygen:PythonPrinter.writeline@" + _WVD, params={"self": "Printer", "line": "Opt[Str]"},
        modifies=_LOG + ["self.emitted"],
-       ensures=[("logged", "forall(lambda k: (k in self.emitted) == (k in old(self.emitted) or (line is not None and k == line)), ty='Str')")],
+       ensures=[("logged", "forall(lambda k: (k in self.emitted) == (k in old(self.emitted) or (line is not None and k == line)), ty='Str')"),
+                ("last", "implies(line is not None, G.emit_last == the(line))")],
        raises={"*": {}}, note="the printer seen as the set of lines handed to it")
 ASSUME("mako.pygen:PythonPrinter.writelines@" + _WVD,
        params={"self": "Printer", "l0": "Opt[Str]=None", "l1": "Opt[Str]=None", "l2": "Opt[Str]=None", "l3": "Opt[Str]=None",
@@ -64,17 +65,26 @@ def _looked_up(k_cond):
             ("strict: imports-then-context-or-NameError", "implies(%s and %s, forall(lambda k: implies(%s, %s), ty='Str'))" % (_IMPORTS, _STRICT, k_cond, _L_STRICT_IMP))]
 
 
-_PROPS = []   # in development: not yet part of the C04 check
+_PROPS = ["C04"]
 _DONE = "(in_prefix(_s1, _i1, k) and k not in comp_idents and k not in self.compiler.namespaces)"
 C(_WVD,
   params={"self": "GenRM", "identifiers": "Idents", "toplevel": "Bool=False", "limit": "Opt[Set[Str]]=None"},
-  requires=[("sets-present", "identifiers.undeclared is not None and identifiers.argument_declared is not None and identifiers.locally_declared is not None and identifiers.closuredefs is not None")],
+  requires=[("sets-present", "identifiers.undeclared is not None and identifiers.argument_declared is not None and identifiers.locally_declared is not None and identifiers.closuredefs is not None"),
+            ("the-log-is-ghost-state: none of the program's sets",
+             "self.printer.emitted is not None and not same(self.printer.emitted, limit) and not same(self.printer.emitted, identifiers.undeclared) "
+             "and not same(self.printer.emitted, identifiers.argument_declared) and not same(self.printer.emitted, identifiers.locally_declared)")],
   modifies=_LOG + [_E, "self.compiler.has_imports", "fresh_heap('set:Str')", "fresh_heap('list:Str')",
                    "fresh_heap('set:Obj[TagLike]')", "fresh_heap('ddom:Str~Obj[TagLike]')", "fresh_heap('dval:Str~Obj[TagLike]')"],
   loops={0: {"inv": [("lines-stay", "forall(lambda k: implies(k in pre(%s), k in %s), ty='Str')" % (_E, _E), "P")],
              "modifies": _LOG + [_E]},
-         1: {"inv": [("only names the function does not bind itself are looked up",
-                      "forall(lambda k: implies(in_prefix(_s1, len(_s1), k), %s), ty='Str')" % _OWN.replace("old(", "pre("), "P"),
+         1: {"inv": [("no name is looked up that the function takes as an argument",
+                      "forall(lambda k: implies(in_prefix(_s1, len(_s1), k), k not in pre(identifiers.argument_declared)), ty='Str')", "P"),
+                     ("no name is looked up that the function binds itself",
+                      "forall(lambda k: implies(in_prefix(_s1, len(_s1), k), k not in pre(identifiers.locally_declared)), ty='Str')", "P"),
+                     ("loop is not looked up while the loop context is enabled",
+                      "forall(lambda k: implies(in_prefix(_s1, len(_s1), k), not (self.compiler.enable_loop and k == 'loop')), ty='Str')", "P"),
+                     ("only names of the limiting set are looked up",
+                      "forall(lambda k: implies(in_prefix(_s1, len(_s1), k), limit is None or k in pre(limit)), ty='Str')", "P"),
                      ("every name read and not bound is in the list",
                       "forall(lambda k: implies(k in pre(identifiers.undeclared) and %s, in_prefix(_s1, len(_s1), k)), ty='Str')" % _OWN.replace("old(", "pre("), "P"),
                      ("lines-stay", "forall(lambda k: implies(k in pre(%s), k in %s), ty='Str')" % (_E, _E), "P")]
@@ -85,3 +95,6 @@ C(_WVD,
   props=_PROPS, native_skip=True,
   note="which names are looked up, and the order of the lookup, for every name at once; the defs declared in the same "
        "pass are emitted by write_def_decl / write_inline_def (own contracts / outside)")
+
+from vrf.pyvc.spec import CONTRACTS as _CC
+_CC[_WVD].heavy = True      # 188 paths: verified on its own with all cores before the other functions of the property
